@@ -75,7 +75,10 @@ def run(chk, tier, seed):
                 cells[p] = 0
         lines.append("%s %s" % (enc, mkflux.cells_to_bytes_lsb(cells).hex()))
         meta.append(("raw", enc, dict(kind=kind, i=i)))
-    outs, p = fc.decode(bdir, lines)
+    hook_trace = os.path.join(common.CACHE, "scratch", "c06-hooks-%d.ndjson" % os.getpid())
+    if os.path.exists(hook_trace):
+        os.unlink(hook_trace)
+    outs, p = fc.decode(bdir, lines, trace_path=hook_trace)
     if p.returncode != 0 or len(outs) < len(lines):
         k = max(0, len(outs) - 1)
         chk.violation("decoder-%s:%s" % ("hang" if p.returncode == -999 else "crash", meta[min(k, len(meta) - 1)][1]),
@@ -95,6 +98,11 @@ def run(chk, tier, seed):
     chk.sample(events[-1])
     # ---- image level: damaged images read back through dfs
     with common.Scratch("c06") as scratch:
+        try:
+            chk.extra["decoder_model_trace_validation"] = fc.model_trace_validation(chk, hook_trace, meta, scratch, per_enc=300 if quick else 3000)
+        finally:
+            if os.path.exists(hook_trace):
+                os.unlink(hook_trace)
         nimg = 9 if quick else 45
         imgjobs = []
         for k in range(nimg):
